@@ -1,3 +1,140 @@
-/-! # C05 — property theorems (stub: filled in when the property's model is built) -/
+import ScenicModel.Props.C05Expr
+import ScenicModel.Props.C05Support
+import ScenicModel.Props.C05Delayed
+import ScenicModel.Gen.ExprTables
+import ScenicModel.Gen.SupportFormulas
+
+/-!
+# C05 — property theorems, instantiated on the data regenerated from /repo
+
+`Scenic.Gen.exprTables` (identity simplifications of `makeOperatorHandler`, the vector operators installed by
+`vectorOperator`, the dispatch form of `OperatorDistribution.sampleGiven`, the zero test of
+`makeVectorOperatorHandler`), `Scenic.Gen.supportFormulas` (the interval formulas of
+`OperatorDistribution.supportInterval`) and `Scenic.Gen.monotoneDeclared` are rewritten from the source on every check
+run; the side conditions below are re-checked by the kernel on that data.
+-/
 namespace Scenic.C05
+open Scenic.Expr Scenic.Support Scenic.Gen
+
+/-! ## side conditions on generated data -/
+
+/-- every identity simplification in the code is a sound identity on numbers, and the zero-identity flags of the
+    vector operators are the ones the model of `Vector.__add__ / __radd__ / __sub__` assumes -/
+theorem gen_tables_wf : exprTables.WF = true := by decide
+
+/-- `supportInterval` pairs each operator with its own formula -/
+theorem gen_support_table_ok : supportFormulas.tableOK = true := by decide
+
+/-- the interval formulas extracted from `OperatorDistribution.supportInterval` are sound (the scripts only use the
+    general interval lemmas, so an equivalent rewrite of a formula usually still proves; a swapped bound does not) -/
+theorem gen_formulas_sound : supportFormulas.Sound where
+  add := by
+    intro l1 r1 l2 r2 x y h1 h2 h3 h4
+    constructor <;> intro b hb <;> simp [supportFormulas] at hb <;> subst hb <;> linarith
+  sub := by
+    intro l1 r1 l2 r2 x y h1 h2 h3 h4
+    constructor <;> intro b hb <;> simp [supportFormulas] at hb <;> subst hb <;> linarith
+  rsub := by
+    intro l1 r1 l2 r2 x y h1 h2 h3 h4
+    constructor <;> intro b hb <;> simp [supportFormulas] at hb <;> subst hb <;> linarith
+  mul := by
+    intro l1 r1 l2 r2 x y h1 h2 h3 h4
+    have hb := mul_bounds l1 r1 l2 r2 x y h1 h2 h3 h4
+    constructor <;> intro b hb' <;> simp [supportFormulas] at hb' <;> subst hb'
+    · exact hb.1
+    · exact hb.2
+  truediv := by
+    intro l1 r1 l2 r2 x y h1 h2 h3 h4 _
+    constructor <;> intro b hb <;> simp only [supportFormulas] at hb <;> split at hb <;> simp at hb <;> subst hb
+    · rename_i hl2; exact div_lower l1 l2 r2 x y hl2 h1 h3 h4
+    · rename_i hl2; exact div_upper r1 l2 r2 x y hl2 h2 h3 h4
+  rtruediv := by
+    intro l1 r1 l2 r2 x y h1 h2 h3 h4 _
+    constructor <;> intro b hb <;> simp only [supportFormulas] at hb <;> split at hb <;> simp at hb <;> subst hb
+    · rename_i hl1; exact div_lower l2 l1 r1 y x hl1 h3 h1 h2
+    · rename_i hl1; exact div_upper r2 l1 r1 y x hl1 h4 h1 h2
+  neg := by
+    intro l r x h1 h2
+    constructor <;> intro b hb <;> simp [supportFormulas] at hb <;> subst hb <;> linarith
+  abs := by
+    intro l r x h1 h2
+    constructor <;> intro b hb <;> simp only [supportFormulas, Option.some.injEq] at hb <;> subst hb <;>
+      split_ifs <;> (try unfold rmax) <;> (try split_ifs) <;> linarith
+
+/-- every function declared `monotonicDistributionFunction` is one the model has classified: `max`, `min` (monotone,
+    `support_sound` covers them) or `hypot` (**not** monotone: `hypot_not_monotone`; finding
+    support:hypot-declared-monotonic, replayed on the real code by the check while it is still declared) -/
+theorem gen_monotone_classified : monotoneDeclared.all (fun f => f ∈ ["max", "min", "hypot"]) = true := by decide
+
+/-- the operators that capture expressions are the ones modelled (`__divmod__`, `__round__`, `__call__` are exercised
+    by the direct oracle only) -/
+theorem gen_operators_known :
+    reversibleOperators.all (fun f => f ∈ ["__add__", "__radd__", "__sub__", "__rsub__", "__mul__", "__rmul__",
+      "__truediv__", "__rtruediv__", "__floordiv__", "__rfloordiv__", "__mod__", "__rmod__", "__divmod__",
+      "__rdivmod__", "__pow__", "__rpow__"]) = true ∧
+    allowedOperators.all (fun f => f ∈ ["__neg__", "__pos__", "__abs__", "__round__", "__getitem__", "__len__"]) = true ∧
+    vectorPlainDunders.all (fun f => f ∈ ["__rmul__"]) = true := by decide
+
+/-! ## the property theorems on the generated data -/
+
+/-- On the supported fragment, the value an expression over random values takes in a scene (the forest Scenic builds,
+    sampled) equals what ordinary Python computes from the sampled leaves.
+
+    Full statement: `∀ env e, evalNode exprTables env (build exprTables e) = evalPy env e`.  It is false of the
+    unchanged code (`Expr.reflected_concat_witness`; findings operator-dispatch:*, vector-handler-sequence-operand);
+    `supportedB` (Model/ExprSupported.lean) spells out what is excluded: the places where the model itself shows a
+    difference (reflected `+`/`-` on sampled sequences with the getattr emulation of `sampleGiven`, sequence operands
+    of the VectorDistribution handler, a constant container indexed by a random value, `*` applied to a Vector with
+    random coordinates, `str % x`), the lazily discarded parts of raw tuples (Scenic evaluates only what is used),
+    and arithmetic on raw tuples (`(x, 1) + (2,)`, not attempted). -/
+theorem forest_eval_eq_python_partial (env : Env) (e : Expr) (h : supportedB exprTables env e = true) :
+    evalNode exprTables env (build exprTables e) = evalPy env e :=
+  Expr.forest_eval_eq_python exprTables gen_tables_wf env e h
+
+/-- non-vacuity: a nested expression with identity-shaped constants, a reflected operator, a literal, indexing and a
+    starred call is inside the fragment, and is not constant -/
+example :
+    let e : Expr :=
+      .call .max [.star (.mkseq false [.bin .add (.leaf 0 .number) (.const (.num 0)),
+                                        .bin .sub (.const (.num 1)) (.leaf 1 .number)]),
+                  .pos (.getitem (.leaf 2 .other) (.bin .mul (.const (.num 1)) (.leaf 3 .number)))]
+    let env : Env := fun i => if i = 2 then .seq false [.num 7, .num 8] else if i = 3 then .num 1 else .num (1 / 2)
+    supportedB exprTables env e = true ∧
+      (match evalPy env e with | some (.num q) => q == 8 | _ => false) = true := by
+  constructor <;> decide +kernel
+
+/-- every simplification `X op c → X` performed by `makeOperatorHandler` leaves the value unchanged, for all numbers -/
+theorem simp_table_sound (e : SimpEntry) (he : e ∈ exprTables.simp) (x : Rat) :
+    (if e.refl then pyBin e.op (.num e.const) (.num x) else pyBin e.op (.num x) (.num e.const)) = some (.num x) :=
+  Expr.simp_table_sound exprTables gen_tables_wf e he x
+
+example : (⟨.mul, true, 1⟩ : SimpEntry) ∈ exprTables.simp := by decide
+
+/-- whenever `supportInterval` reports bounds, every value the distribution can take lies inside them
+    (operators + − × ÷ and their reflected forms, neg, abs, Range, DiscreteRange, Options / attribute-of-Options,
+    max / min, TruncatedNormal).
+
+    Full statement: the same for every function declared `monotonicDistributionFunction` in geometry.py.  Missing:
+    `hypot`, for which it is false (`hypot_declared_monotone_witness`; finding support:hypot-declared-monotonic). -/
+theorem support_sound_partial (ivs : Nat → Supp) (leafSem : Nat → Rat → Prop)
+    (hleaf : ∀ i v, leafSem i v → within (ivs i) v) (e : SExpr) (s : Supp) (v : Rat)
+    (hs : support supportFormulas ivs e = some s) (hv : Sem leafSem e v) : within s v :=
+  Support.support_sound supportFormulas gen_formulas_sound gen_support_table_ok ivs leafSem hleaf e s v hs hv
+
+/-- non-vacuity: `abs(Range(-3, 1)) * Range(2, 4)` reports the bounds [0, 12] -/
+example : support supportFormulas (fun _ => (none, none))
+    (.bin .mul false (.un .abs (.range (.const (-3)) (.const 1))) (.range (.const 2) (.const 4))) =
+      some (some 0, some 12) := by decide +kernel
+
+/-- `hypot` is declared monotone in geometry.py although it is not: with bounds [-3, 1] the reported support is
+    [hypot(-3), hypot(1)] = [3, 1], which does not contain hypot(0) = 0 (squares compared) -/
+theorem hypot_declared_monotone_witness : ¬ ∀ x y : Rat, x ≤ y → hypotSq [x] ≤ hypotSq [y] :=
+  hypot_not_monotone
+
+/-- delayed arguments and `self.`-dependent defaults are evaluated against the final property values -/
+theorem delayed_eval_final {α} (pre : List (Delayed.Spec α)) (s : Delayed.Spec α) (post : List (Delayed.Spec α))
+    (ctx0 : Delayed.Ctx α) (hwo : Delayed.wellOrdered (s :: post) = true) (hloc : s.local) (q : Nat) :
+    s.value (Delayed.run pre ctx0) q = s.value (Delayed.run (pre ++ s :: post) ctx0) q :=
+  Delayed.delayed_eval_final pre s post ctx0 hwo hloc q
+
 end Scenic.C05
